@@ -383,3 +383,79 @@ func (g *Gen) scBuilder(p *Pool) []Op {
 	return []Op{op("BusSetBuilder", b, 0), op("BusSetBuilder", b, c1), op("BusSetBuilder", b2, c1), op("BusSetBuilder", b, c2),
 		op("BusSetBuilder", b, 0), op("BusSetBuilder", b2, 0), op("BusSetBuilder", b, c1), op("BusSetBuilder", b, c1), op("BusSetBuilder", b2, c2)}
 }
+
+// oversize: a message longer than a CAN 2.0A payload is legal while its interface is detached, with
+// or without a static CAN-ID; attaching the interface to a bus must be refused for the size
+func (g *Gen) scOversize(p *Pool) []Op {
+	if len(p.of(KMsg)) >= 10 {
+		return nil
+	}
+	ifs := liveIfaces(p)
+	bs := p.of(KBus)
+	if len(ifs) == 0 || len(bs) == 0 {
+		return nil
+	}
+	i := g.r.pick(ifs)
+	b := g.r.pick(bs)
+	ni := p.iface(i)
+	nd := int64(p.byID[ni.Node().EntityID()])
+	var ops []Op
+	if pb := ni.ParentBus(); pb != nil {
+		ops = append(ops, op("BusRemoveNodeInterface", int64(p.byID[pb.EntityID()]), nd))
+	}
+	// other interfaces of the node leave bus b, so that name / id of the node are free there
+	for _, x := range ni.Node().Interfaces() {
+		if x != ni && x.ParentBus() == p.bus(b) {
+			return nil
+		}
+	}
+	m := int64(len(p.ents) + 1) // handle of the message created by the first call of the script
+	size := []int64{9, 12, 16, 64}[g.r.below(4)]
+	c := int64(g.r.below(5))
+	ops = append([]Op{op("NewMessage", 5, int64(g.r.below(5)), size)}, ops...)
+	if g.r.chance(50) {
+		ops = append(ops, op("MsgSetStatic", m, c), op("IfAddSent", i, m))
+	} else {
+		ops = append(ops, op("IfAddSent", i, m), op("MsgSetStatic", m, c))
+	}
+	ops = append(ops,
+		op("BusAddNodeInterface", b, i), // refused: the message does not fit a CAN 2.0A frame
+		op("MsgUpdateID", m, (c+1)%5),    // no static CAN-ID any more: still refused
+		op("BusAddNodeInterface", b, i),
+		op("IfRemoveSent", i, m),
+		op("BusAddNodeInterface", b, i), // accepted (unless name / id of the node are taken)
+		op("IfAddSent", i, m),           // refused on the attached interface
+		op("MsgSetStatic", m, c), op("IfAddSent", i, m))
+	return ops
+}
+
+// clone: an enum WITH values is cloned; original and clone are then edited independently (the
+// clone's values are new objects: handles n+2.. in the order of Values())
+func (g *Gen) scClone(p *Pool) []Op {
+	if len(p.of(KEnum)) >= 7 || len(p.of(KEval)) >= 28 {
+		return nil
+	}
+	var e int64
+	for _, h := range p.of(KEnum) {
+		if n := len(p.enum(int64(h)).Values()); n >= 1 && n <= 4 {
+			e = int64(h)
+		}
+	}
+	if e == 0 {
+		return nil
+	}
+	vals := p.enum(e).Values()
+	n := int64(len(p.ents))
+	ce := n + 1
+	v0 := int64(p.byID[vals[0].EntityID()])
+	vl := int64(p.byID[vals[len(vals)-1].EntityID()])
+	c0 := n + 2
+	cl := n + 1 + int64(len(vals))
+	return []Op{op("CloneEnum", e),
+		op("EvalUpdateIndex", v0, 7), op("EvalUpdateName", v0, 5), // the original's value: the clone must not move
+		op("EvalUpdateIndex", c0, 6),                                // the clone's value: the original must not move
+		op("EnumRemoveValue", e, vl), op("EnumAddValue", ce, vl),   // refused: name / index taken by the clone's own copy
+		op("EnumRemoveValue", ce, cl), op("EnumAddValue", ce, vl),
+		op("CloneEval", v0), op("EnumRemoveAllValues", e), op("EnumAddValue", e, cl),
+		op("CloneEnum", ce)}
+}
